@@ -39,13 +39,15 @@ Fixpoint assoc (f : field) (l : list (field * Z)) : option Z :=
 Definition CLEAR_ADDR : Z := 965.    (* 0x3c5 *)
 
 (* ---- target IR --------------------------------------------------------------------------------- *)
-Inductive cval := VRef (v : val) | VConst (z : Z).
+(* VCast v: the arith.index_cast to i32 the lowering puts in front of an index-typed setup value *)
+Inductive cval := VRef (v : val) | VConst (z : Z) | VCast (v : val).
 
 Inductive cstmt :=
 | CPure (dst : val) (e : pexp)
 | CCall (tag : nat) (eff pure : bool) (dsts : list val) (args : list val)
 | CWrite (addr : Z) (v : cval)
 | CPoll (addr : Z) (shift : Z) (cmp : Z)
+| CInsn (func7 : Z) (v1 v2 : cval)    (* RoCC: .insn r CUSTOM_3, 0x3, func7, x0, v1, v2 *)
 | CFor (iv lb ub step : val) (iters : list (val * val)) (results : list val)
        (body : list cstmt) (yields : list val)
 | CIf (c : val) (results : list val) (thn : list cstmt) (thn_y : list val)
@@ -55,20 +57,21 @@ Definition cblock := list cstmt.
 
 (* ---- the lowering -------------------------------------------------------------------------------- *)
 (* field_to_csr[field] for every (field, value) of the op; a missing key is Python's KeyError *)
-Fixpoint lower_params (tbl : list (field * Z)) (fs : list (field * val)) : option cblock :=
+(* [idx]: the index-typed SSA values; lower_acc_setup casts those (per use), lower_acc_launch does not *)
+Fixpoint lower_params (idx : list val) (tbl : list (field * Z)) (fs : list (field * val)) : option cblock :=
   match fs with
   | [] => Some []
   | (f, v) :: fs' =>
-      match assoc f tbl, lower_params tbl fs' with
-      | Some a, Some r => Some (CWrite a (VRef v) :: r)
+      match assoc f tbl, lower_params idx tbl fs' with
+      | Some a, Some r => Some (CWrite a (if mem_nat v idx then VCast v else VRef v) :: r)
       | _, _ => None
       end
   end.
 
-Definition lower_setup (ai : accinfo) (fs : list (field * val)) : option cblock :=
-  lower_params (ai_fields ai) fs.
+Definition lower_setup (idx : list val) (ai : accinfo) (fs : list (field * val)) : option cblock :=
+  lower_params idx (ai_fields ai) fs.
 Definition lower_launch (ai : accinfo) (fs : list (field * val)) : option cblock :=
-  lower_params (ai_launch ai) fs.
+  lower_params [] (ai_launch ai) fs.
 Definition lower_await (ai : accinfo) : cblock :=
   match ai_style ai with
   | BPoll1 => [CPoll (ai_barrier ai) 0 0; CWrite CLEAR_ADDR (VConst 0)]
@@ -91,6 +94,7 @@ Definition int_iters (iters : list (val * val * ty)) : list (val * val) :=
 
 Section Lower.
 Variable am : amapT.
+Variable idx : list val.
 
 Fixpoint lower_stmt (s : stmt) {struct s} : option cblock :=
   let lower_blk := fix lower_blk (b : list stmt) {struct b} : option cblock :=
@@ -105,7 +109,7 @@ Fixpoint lower_stmt (s : stmt) {struct s} : option cblock :=
   match s with
   | SPure d e => Some [CPure d e]
   | SCall g ef pu ds ar => Some [CCall g ef pu ds ar]
-  | SSetup a _ _ fs => match nth_error am a with Some ai => lower_setup ai fs | None => None end
+  | SSetup a _ _ fs => match nth_error am a with Some ai => lower_setup idx ai fs | None => None end
   | SLaunch a _ _ fs => match nth_error am a with Some ai => lower_launch ai fs | None => None end
   | SAwait a _ => match nth_error am a with Some ai => Some (lower_await ai) | None => None end
   | SReset _ _ => None      (* accfg.reset has no lowering: the pass leaves a malformed op behind *)
@@ -141,6 +145,7 @@ End Lower.
 Inductive cev :=
 | CW (addr v : Z)
 | CR (addr : Z)
+| CI (func7 v1 v2 : Z)
 | CCallE (tag n : nat) (args : list Z).
 
 Record cstate := mkCSt {
@@ -160,7 +165,7 @@ Record coracle := mkCOracle {
 Definition zupd (m : Z -> Z) (k v : Z) : Z -> Z := fun k' => if k' =? k then v else m k'.
 
 Definition cval_eval (e : envT) (v : cval) : Z :=
-  match v with VRef x => e x | VConst z => z end.
+  match v with VRef x => e x | VConst z => z | VCast x => e x end.
 
 Definition cset_env (m : cstate) (e : envT) : cstate :=
   mkCSt e (csr m) (cncalls m) (cnpolls m) (ctr m).
@@ -220,6 +225,9 @@ Fixpoint cexec_stmt (s : cstmt) (m : cstate) {struct s} : cstate :=
   | CCall tag eff pure dsts args => cexec_call tag eff pure dsts args m
   | CWrite a v => cexec_write a v m
   | CPoll a _ _ => cexec_poll a m
+  | CInsn f a b =>
+      mkCSt (cenv m) (csr m) (cncalls m) (cnpolls m)
+            (CI f (cval_eval (cenv m) a) (cval_eval (cenv m) b) :: ctr m)
   | CFor iv lb ub st iters results body yields =>
       cexec_for (exec_blk body) iv lb ub st iters results yields m
   | CIf c results thn thn_y els els_y =>
@@ -404,6 +412,8 @@ Definition pexp_ids (e : pexp) : list val :=
   | PConst _ => [] | PId a => [a] | PBin _ a b => [a; b] | PCmp _ a b => [a; b] | PSelect c a b => [c; a; b]
   end.
 
+Definition cval_ids (v : cval) : list val := match v with VRef x | VCast x => [x] | VConst _ => [] end.
+
 Fixpoint cstmt_ids (s : cstmt) : list val :=
   let blk := fix blk (b : list cstmt) : list val :=
     match b with [] => [] | x :: b' => cstmt_ids x ++ blk b' end in
@@ -412,7 +422,9 @@ Fixpoint cstmt_ids (s : cstmt) : list val :=
   | CCall _ _ _ ds ar => ds ++ ar
   | CWrite _ (VRef v) => [v]
   | CWrite _ (VConst _) => []
+  | CWrite _ (VCast v) => [v]
   | CPoll _ _ _ => []
+  | CInsn _ a b => cval_ids a ++ cval_ids b
   | CFor iv lb ub st iters results body yields =>
       iv :: lb :: ub :: st :: map fst iters ++ map snd iters ++ results ++ yields ++ blk body
   | CIf c results thn thn_y els els_y => c :: results ++ thn_y ++ els_y ++ blk thn ++ blk els
@@ -445,6 +457,7 @@ Definition cval_eqb (a b : cval) : bool :=
   match a, b with
   | VRef x, VRef y => Nat.eqb x y
   | VConst x, VConst y => Z.eqb x y
+  | VCast x, VCast y => Nat.eqb x y
   | _, _ => false
   end.
 Definition vv_eqb (a b : val * val) : bool := Nat.eqb (fst a) (fst b) && Nat.eqb (snd a) (snd b).
@@ -462,6 +475,7 @@ Fixpoint cstmt_eqb (s t : cstmt) {struct s} : bool :=
       Nat.eqb g g' && Bool.eqb ef ef' && Bool.eqb pu pu' && list_eqb Nat.eqb ds ds' && list_eqb Nat.eqb ar ar'
   | CWrite a v, CWrite a' v' => Z.eqb a a' && cval_eqb v v'
   | CPoll a s k, CPoll a' s' k' => Z.eqb a a' && Z.eqb s s' && Z.eqb k k'
+  | CInsn f a b, CInsn f' a' b' => Z.eqb f f' && cval_eqb a a' && cval_eqb b b'
   | CFor iv lb ub sp its rs body ys, CFor iv' lb' ub' sp' its' rs' body' ys' =>
       Nat.eqb iv iv' && Nat.eqb lb lb' && Nat.eqb ub ub' && Nat.eqb sp sp' && list_eqb vv_eqb its its'
       && list_eqb Nat.eqb rs rs' && blk body body' && list_eqb Nat.eqb ys ys'
@@ -482,6 +496,7 @@ Definition cev_eqb (a b : cev) : bool :=
   match a, b with
   | CW x v, CW y w => Z.eqb x y && Z.eqb v w
   | CR x, CR y => Z.eqb x y
+  | CI f a b, CI f' a' b' => Z.eqb f f' && Z.eqb a a' && Z.eqb b b'
   | CCallE g n ar, CCallE g' n' ar' => Nat.eqb g g' && Nat.eqb n n' && list_eqb Z.eqb ar ar'
   | _, _ => false
   end.
